@@ -219,4 +219,28 @@ PROPS["C08"] = {
                   "covered by correspondence only.",
 }
 
+PROPS["C13"] = {
+    "lean": ["WsVerif.Props.C13", "WsVerif.Bridge.C13"],
+    "rule": "MessageState.SetBits / UnsetBits (+ SetBit / UnsetBit / IsCompressed) on all compressed x Fin x RSV(0..7) x OpCode(0..15); "
+            "writer sequences of compressed / uncompressed messages with SetExtensions switches x 5 buffer sizes x both sides (also in the "
+            "C06 random sequences); reader with the extension attached on a fragmented message with every RSV pattern on the first frame, the "
+            "continuation and an interleaved ping, both sides, plus compressed/uncompressed message sequences; full stack round trip "
+            "wsflate.Writer -> wsutil.Writer+MessageState -> wire (ping injected between fragments) -> wsutil.Reader+MessageState -> "
+            "wsflate.Reader for payloads 0..40000 bytes x buffer sizes x flate levels x chunkings.",
+    "exhaustive_families": ["msb (state x header grid)", "rdr RSV patterns (thorough)"],
+    "trusted_base": READER_TB[:3] + [
+        "Model: extRsv / setBits / unsetBits in Model/Writer.lean, Model/Reader.lean; proved equal (Bridge.C13) to the wsfacts translation of "
+        "MessageState.SetBits / UnsetBits regenerated from wsflate/extension.go",
+        "the stack round trip uses real compress/flate on both ends (not modelled): judged by an oracle on the observed frames only",
+    ],
+    "assumptions": COMMON_ASSUME,
+    "level_text": "Kernel-checked: the RSV bits of every frame the writer emits are extRsv(ext, opcode-or-continuation) = RSV1 exactly on the "
+                  "first frame of a data message marked compressed and nothing on continuations / control opcodes; extRsv IS "
+                  "MessageState.SetBits on a fresh header, and SetBits / UnsetBits ARE the translated Go source (bridge); UnsetBits updates "
+                  "the state only on first data frames, clears RSV1 and leaves RSV2/3, is transparent for control and continuation frames "
+                  "and rejects RSV1 there; the reader's NextFrame surfaces that rejection without disturbing the state. PARTIAL: 'in every "
+                  "emitted message' over whole histories rests on C06's history invariant (in progress); stack round trip by oracle.",
+    "level_note": "Trusted: Lean kernel, wsfacts translator, harness; compress/flate not modelled.",
+}
+
 NOT_APPLICABLE = {}
